@@ -30,6 +30,7 @@ var shared = map[string][]sharedRule{
 		{[]func(*core.Ctx){C14}, []string{"C14.R1"}, "C03.R18", 7, "the outcome is written under the processor's write mutex and the mutex is released on every exit (decided by C14.R1): otherwise the reply of one call is interleaved with, or blocks, another's"},
 	},
 	"C05": {
+		{[]func(*core.Ctx){C15}, []string{"C15.R10"}, "C05.R15", 1, "hostile input is reported, not mistaken for a hang-up (decided by C15.R10): the reader loop treats only END_OF_FILE as a clean close — an oversized frame header (a transport exception of another kind) closes the connection WITH its cause, so the monitor reopens it"},
 		{[]func(*core.Ctx){C07}, []string{"C07.R11"}, "C05.R13", 1, "a STOMP message is acknowledged off the consuming goroutine (decided by C07.R11): a synchronous Ack under back-pressure wedges the subscriber on input alone"},
 	},
 	"C06": {
@@ -39,12 +40,14 @@ var shared = map[string][]sharedRule{
 		{[]func(*core.Ctx){C05}, []string{"C05.R2", "C05.R3"}, "C04.S15", 20, "reading a header block never reads or allocates outside it (decided by C05.R2/R3): every slice bound and allocation size of the decoders is proved from the guards in machine arithmetic — a chunked reader that asks for more than the block holds, or a version byte taken from the wrong offset, is reported"},
 	},
 	"C09": {
+		{[]func(*core.Ctx){C04}, []string{"C04.S9"}, "C09.R14", 1, "a large header set reaches the handler over stream transports (decided by C04.S9): header blocks are read with io.ReadFull, a short read is not a truncated block"},
 		{[]func(*core.Ctx){C04}, []string{"C04.S6", "C04.S4"}, "C09.R10", 14, "the header codec the context travels through is exact (decided by C04.S4/S6): every reject guard of the pair decoder rejects only blocks whose next read would not fit, and prefix/payload offsets of encoder and decoder agree — a header with an empty value, or one serialised last, is never lost or refused"},
 		{[]func(*core.Ctx){C17}, []string{"C17.R2", "C17.R3", "C17.R4", "C17.R5"}, "C09.R11", 20, "the context object itself keeps its headers apart (decided by C17.R2–R5): guarded maps, no escaping map, fresh op id per context, deep Clone — a clone or a concurrent reader must not see or change the headers of the request in flight"},
 		{[]func(*core.Ctx){C01}, []string{"C01.R1", "C01.R3"}, "C09.R13", 4, "a reply reaches the context that issued its request (decided by C01.R1/R3): frames are handed over only under their own _opid, so the response headers merged into a context are those of its own handler"},
 		{[]func(*core.Ctx){C03}, []string{"C03.R4", "C03.R5"}, "C09.R12", 6, "request and reply are complete messages in protocol order and an unknown method's arguments are consumed (decided by C03.R4/R5): the response header is read where it was written"},
 	},
 	"C02": {
+		{[]func(*core.Ctx){C10}, []string{"C10.R10"}, "C02.R19", 2, "every union member is optional whatever the IDL spells (decided by C10.R10): the parser's override of the members' modifier is unconditional, otherwise a `required` member makes the generated union unreadable/uncompilable"},
 		{[]func(*core.Ctx){C10}, []string{"C10.R8"}, "C02.R18", 2, "a type is generated from the file that declares it (decided by C10.R8): the parse cache is keyed by the opened path and lives for one run"},
 	},
 	"C11": {
